@@ -542,6 +542,20 @@ pub fn c15_corpus() -> Vec<SrcCase> {
     for t in ["br val", "brnzp val", "brz #0", "rti", "halt", "trap x25", "trap x1f", "trap x28", "trap xff", ".fill x3", ".break", ".orig x3000", ".end", "val", "r0", "#1", "add r0 r0", "ld r0 nolabel", "trap", "push r0", "\"abc", "xé", "jmp r0", "ret", "puts", "putn", "reg", "out", "trap x21"] {
         add(vec![Cmd::MoveReg(0, 0x41), Cmd::Eval(t.into()), Cmd::Registers], &[]);
     }
+    // the PC moved (by an evaluated jump) to just below the origin and to the top of memory, then
+    // PC-relative instructions with literal and with label operands: nothing may end the session
+    for target in [0x2FFDu16, 0x2FFE, 0x2FFF, 0xFFFE, 0xFFFF, 0x0000] {
+        for t in ["ld r1 #1", "ld r1 #-1", "lea r2 #0", "st r1 #2", "ldi r3 #1", "jsr #1", "br #1", "ld r1 val", "lea r2 other", "ld r1 x7FFF", "ld r1 #255", "ld r1 #-256"] {
+            let c = vec![Cmd::MoveReg(0, target), Cmd::Eval("jmp r0".into()), Cmd::Eval(t.into()), Cmd::Registers, Cmd::Eval("add r4 r4 #1".into()), Cmd::Registers, Cmd::Exit];
+            v.push(make_case("E15", &sp, &r, vec![], c));
+        }
+    }
+    // a NUL character (possible in a script that is piped in) glued to a complete instruction, with
+    // more text behind it: not one well-formed instruction
+    for t in ["add r0 r0 r7\0 add r0 r0 #7", "lea r3 val\0 text", "ret\0x", "add r0 r0 #1\0", "add r0 r0 #1 \0 add r0 r0 #1", "not r1 r1\0\0", "\0add r1 r1 #1", "ld r1 val\0val"] {
+        let c = vec![Cmd::MoveReg(7, 0x11), Cmd::Eval(t.into()), Cmd::Registers, Cmd::Exit];
+        v.push(make_case("E15", &sp, &r, vec![], c));
+    }
     // every label-bearing instruction with a label that does not exist (all must be refused, none
     // may end the session), also with the stack extension on, where `call` joins them
     let sp_stack = SessionProg { prog: Prog::default(), stack: true, kind: "corpus" };
